@@ -116,6 +116,7 @@ func main() {
 	workers := flag.Int("j", 16, "parallel jobs")
 	verbose := flag.Bool("v", false, "verbose")
 	noReplay := flag.Bool("noreplay", false, "skip native replay of counterexamples")
+	replayDir := flag.String("replay", "", "re-run the native replay stored in this directory (written by an earlier run)")
 	native := flag.Bool("native", false, "self-test: run every harness natively (compiled, real packages) with all-zero inputs; no assertion may fail")
 	cpuprof := flag.String("cpuprofile", "", "write a CPU profile")
 	flag.Parse()
@@ -123,6 +124,11 @@ func main() {
 		pf, _ := os.Create(*cpuprof)
 		pprof.StartCPUProfile(pf)
 		defer pprof.StopCPUProfile()
+	}
+	if *replayDir != "" {
+		os.Setenv("PATH", "/opt/veriftools/go1.26.8/bin:"+os.Getenv("PATH"))
+		os.Setenv("GOTOOLCHAIN", "local")
+		os.Exit(replayStored(*replayDir, *repo, *verif))
 	}
 	if flag.NArg() < 1 {
 		fmt.Fprintln(os.Stderr, "usage: vcheck [flags] <property-id>")
@@ -399,6 +405,37 @@ func writeCex(dir string, j JobSpec, v *interp.Violation) {
 	}
 	b, _ := json.MarshalIndent(c, "", " ")
 	os.WriteFile(filepath.Join(dir, "cex.json"), b, 0o644)
+	jb, _ := json.MarshalIndent(j, "", " ")
+	os.WriteFile(filepath.Join(dir, "job.json"), jb, 0o644)
+}
+
+// replayStored re-runs a stored counterexample against the current tree.
+func replayStored(dir, repo, verif string) int {
+	var j JobSpec
+	b, err := os.ReadFile(filepath.Join(dir, "job.json"))
+	if err != nil || json.Unmarshal(b, &j) != nil {
+		fmt.Println("cannot read", filepath.Join(dir, "job.json"))
+		return 2
+	}
+	st, err := interp.NewStage(repo, verif)
+	if err != nil {
+		fmt.Println(err)
+		return 2
+	}
+	defer st.Close()
+	l, err := st.Load(j.Group)
+	if err != nil {
+		fmt.Println(err)
+		return 2
+	}
+	ok, out := replay(st, j, l, dir)
+	fmt.Println(out)
+	if ok {
+		fmt.Println("REPLAY: the counterexample reproduces on this tree")
+		return 1
+	}
+	fmt.Println("REPLAY: the counterexample does not reproduce on this tree")
+	return 0
 }
 
 // replay runs the very same harness natively (real compiler, real package)
@@ -450,7 +487,7 @@ func TestVerifReplay(t *testing.T) {
 	cmd.Env = append(st.Env(), "VRT_CEX="+filepath.Join(dir, "cex.json"))
 	out, _ := cmd.CombinedOutput()
 	s := string(out)
-	script := fmt.Sprintf("#!/bin/sh\n# replay of a counterexample found by vcheck; staged internal packages need `vcheck --replay`.\ncd %s && VRT_CEX=%s GOWORK=<go.work generated by vcheck> go test -vet=off -count=1 -run '^TestVerifReplay$' -overlay %s -v .\n", h.Dir, filepath.Join(dir, "cex.json"), ovPath)
+	script := fmt.Sprintf("#!/bin/sh\n# replays this counterexample natively (real toolchain, real packages) against the current /repo\nexec /verif/bin/vcheck -replay %s\n", dir)
 	os.WriteFile(filepath.Join(dir, "replay.sh"), []byte(script), 0o755)
 	// a panic in a library goroutine takes the test binary down: that is a reproduction too
 	crashed := strings.Contains(s, "\npanic: ") || strings.HasPrefix(s, "panic: ")
